@@ -165,9 +165,8 @@ func (ex *Exec) feasible(c *Term) Result {
 		}
 		return Unsat
 	}
-	conds := append(append([]*Term{}, ex.pc...), c)
 	ex.w.stats.FeasQ++
-	return ex.w.solver.Check(conds)
+	return ex.w.solver.Check(ex.pc, c)
 }
 
 // decide resolves a symbolic branch condition, forking when both outcomes
@@ -251,10 +250,10 @@ func (ex *Exec) concretize(t *Term, limit int, why string) uint64 {
 	}
 	ex.w.stats.Concretizations++
 	var vals []uint64
-	conds := append([]*Term{}, ex.pc...)
+	var conds []*Term
 	for {
 		ex.w.stats.FeasQ++
-		r, m := ex.w.solver.CheckModel(conds, []*Term{t}, "")
+		r, m := ex.w.solver.CheckModel(ex.pc, conds, []*Term{t}, "")
 		if r == Unknown {
 			panic(stopf(StopUnknown, "concretize %s: solver unknown", why))
 		}
